@@ -53,6 +53,14 @@ def boxOpt : Option Int → Val κ ν
   | some i => .int i
   | none => .none
 
+/-- a dynamic value used as the key of a dict STORE (`d[v] = …`) in a dict whose keys are of the key type: a key is
+    itself; a cell (a list) is unhashable; storing under any other object (`None`, a sentinel, an int) would put a key
+    of another type into the dict: not modelled -/
+def asKeyStore? : Val κ ν → Except PyExc κ
+  | .key k => .ok k
+  | .ref _ => .error PyExc.TypeError
+  | _ => .error PyExc.Other
+
 /-- Python's `<` on two lists of ints (lexicographic; the first differing position decides, else the lengths);
     items that are not ints: not modelled -/
 def cellLt? : List (Val κ ν) → List (Val κ ν) → Except PyExc Bool
@@ -201,6 +209,25 @@ def forIn {α : Type} (it : σ → Except PyExc (List α)) (bind : α → σ →
   match it s with
   | .ok xs => forLoop bind body xs s
   | .error e => (.exc e, s)
+
+/-- `for [i,] x in [enumerate](g)` where `g` is the generator `(v for v in self.<list> if keep v)` over a list attribute
+    the class never rebinds: CPython's list iterator is an INDEX into the live list (it looks at `len(list)` at every
+    step), so a body that writes the list is seen by the rest of the iteration.  `j` = the iterator's index, `i` = the
+    `enumerate` counter; one unit of fuel per list element looked at -/
+def forLazy {α : Type} (get : σ → List α) (keep : α → Bool) (bind : Int → α → σ → σ) (body : Stmt σ ρ) :
+    Nat → Nat → Int → Stmt σ ρ
+  | 0, _, _ => fun s => (.exc .OutOfFuel, s)
+  | n + 1, j, i => fun s =>
+    match (get s)[j]? with
+    | none => (.next, s)
+    | some x =>
+      if keep x then
+        match body (bind i x s) with
+        | (.next, s1) => forLazy get keep bind body n (j + 1) (i + 1) s1
+        | (.cont, s1) => forLazy get keep bind body n (j + 1) (i + 1) s1
+        | (.brk, s1) => (.next, s1)
+        | (fl, s1) => (fl, s1)
+      else forLazy get keep bind body n (j + 1) i s
 
 /-- the result of a method body: `fall` is what falling off the end returns (`some ()` = Python's `None` for a method
     of result type `None`; `none` for the others, whose bodies the translator checks to end in `return` / `raise`) -/
